@@ -125,17 +125,38 @@ struct Sim {
     marks: StdVec<u32>,
     /// harness-side bookkeeping of the last accepted offer (generator guidance only)
     last_offer: Option<(usize, u32)>,
+    /// the harness pays "rent" for the contract instance after every ledger move (sequences with a
+    /// tiny max_entry_ttl); off in the long-idle family, where nothing may touch any entry
+    rent: bool,
+    /// the constructor failed under this ledger configuration (only possible on a modified tree,
+    /// e.g. a TTL extension larger than this sequence's max_entry_ttl): the sequence is skipped
+    dead: bool,
 }
+
+const DAY: u32 = 17_280;
+/// max_entry_ttl of the long-idle family (about one year): persistent / instance entries of the
+/// unmodified code stay live over every idle gap
+const LONG_TTL: u32 = 6_312_000;
 
 impl Sim {
     fn new(t: &mut Trace, what: &str, kind: Kind, min_temp: u32, max_ttl: u32, start: u32) -> Sim {
         let e = new_env(start, min_temp, max_ttl);
         let u = Universe::new(&e, N);
-        let c = match kind {
+        let c = catch(|| match kind {
             Kind::Owner => e.register(ownable_example::ExampleContract, (u.a(0).clone(),)),
             Kind::Admin => e.register(Acl, (u.a(0).clone(),)),
-        };
+        });
         let prober = e.register(Prober, ());
+        let (c, dead) = match c {
+            Some(c) => (c, false),
+            None => {
+                t.count("skipped:constructor-failed");
+                (prober.clone(), true)
+            }
+        };
+        if dead {
+            return Sim { e, u, c, prober, kind, now: start, min_temp, max_ttl, marks: vec![], last_offer: None, rent: false, dead };
+        }
         t.seq(&format!(
             "{} kind={} min_temp={} max_ttl={} start={} holder=0",
             what,
@@ -144,9 +165,12 @@ impl Sim {
             max_ttl,
             start
         ));
-        Sim { e, u, c, prober, kind, now: start, min_temp, max_ttl, marks: vec![], last_offer: None }
+        Sim { e, u, c, prober, kind, now: start, min_temp, max_ttl, marks: vec![], last_offer: None, rent: max_ttl < LONG_TTL, dead }
     }
     fn holder(&self) -> Option<usize> {
+        if self.dead {
+            return None;
+        }
         let h: Option<Address> = query(&self.e, &self.c, self.kind.f_get(), args(&self.e, [])).unwrap();
         h.map(|a| self.u.index_of(&a).unwrap_or(99))
     }
@@ -218,6 +242,9 @@ impl Sim {
         ));
     }
     fn invoke(&mut self, t: &mut Trace, line: String, func: &str, argv: Vec<Val>, auth: &[usize]) -> bool {
+        if self.dead {
+            return false;
+        }
         t.op(&line);
         let signers: StdVec<&Address> = auth.iter().map(|&i| self.u.a(i)).collect();
         let r = call(&self.e, &self.c, func, argv, &signers);
@@ -255,14 +282,19 @@ impl Sim {
         self.invoke(t, format!("rt guarded auth={}", join(auth)), self.kind.f_guarded(), args(&e, []), auth)
     }
     fn advance(&mut self, t: &mut Trace, n: u32) {
+        if self.dead {
+            return;
+        }
         self.now += n;
         set_ledger(&self.e, self.now, self.min_temp, self.max_ttl);
-        // rent: keep the contract instance alive however far the ledger moves (instance /
-        // persistent archival is outside the property)
-        let (c, m) = (self.c.clone(), self.max_ttl);
-        self.e.as_contract(&c, || self.e.storage().instance().extend_ttl(m - 1, m - 1));
-        let p = self.prober.clone();
-        self.e.as_contract(&p, || self.e.storage().instance().extend_ttl(m - 1, m - 1));
+        if self.rent {
+            // rent: keep the contract instance alive however far the ledger moves (instance /
+            // persistent archival is outside the property)
+            let (c, m) = (self.c.clone(), self.max_ttl);
+            self.e.as_contract(&c, || self.e.storage().instance().extend_ttl(m - 1, m - 1));
+            let p = self.prober.clone();
+            self.e.as_contract(&p, || self.e.storage().instance().extend_ttl(m - 1, m - 1));
+        }
         t.op(&format!("rt advance n={}", n));
         self.observe(t, true, "-".into());
     }
@@ -368,6 +400,87 @@ fn directed(t: &mut Trace) {
         s.accept(t, &[3]);
         s.accept(t, &[1]);
         s.guarded(t, &[1]);
+    }
+}
+
+// ------------------------------------------------------------------------------------------
+// long-idle family: the holder entry (and everything else that must persist) survives a day, a
+// month and a hundred days without anybody touching it
+// ------------------------------------------------------------------------------------------
+
+fn long_idle(t: &mut Trace, rng: &mut Rng, n_random: u64) {
+    let gaps = [DAY, 31 * DAY, 100 * DAY];
+    for kind in [Kind::Owner, Kind::Admin] {
+        for min_temp in [1u32, 16] {
+            // the holder set by the constructor
+            let mut s = Sim::new(t, "long-idle constructor holder", kind, min_temp, LONG_TTL, 100);
+            s.guarded(t, &[0]);
+            for g in gaps {
+                s.advance(t, g); // one jump, nothing touched in between
+                s.guarded(t, &[0]);
+                s.guarded(t, &[1, 2, 3]);
+            }
+            s.offer(t, 1, s.now + 40 * DAY, &[0]); // an offer that outlives a month of silence
+            s.advance(t, 31 * DAY);
+            s.accept(t, &[2]);
+            s.accept(t, &[1]);
+            // the holder installed by accept
+            for g in gaps {
+                s.advance(t, g);
+                s.guarded(t, &[1]);
+                s.guarded(t, &[0]);
+            }
+            s.offer(t, 2, s.now + 5, &[1]);
+            s.advance(t, 31 * DAY); // the short offer is long gone, the holder is not
+            s.accept(t, &[2]);
+            s.guarded(t, &[1]);
+            s.renounce(t, &[1]);
+            // renounced stays renounced
+            for g in gaps {
+                s.advance(t, g);
+                s.guarded(t, &[0, 1, 2, 3]);
+                s.offer(t, 1, s.now + 10, &[0, 1, 2, 3]);
+                s.accept(t, &[0, 1, 2, 3]);
+            }
+        }
+    }
+    for k in 0..n_random {
+        let kind = if rng.chance(50) { Kind::Owner } else { Kind::Admin };
+        let min_temp = if rng.chance(50) { 1 } else { 16 };
+        let mut s = Sim::new(t, &format!("long-idle rand k={}", k), kind, min_temp, LONG_TTL, 100);
+        let mut idle_total: u32 = 0;
+        for _ in 0..30 {
+            let holder = s.holder();
+            match rng.below(10) {
+                0..=2 if idle_total < 240 * DAY => {
+                    let g = *rng.pick(&gaps);
+                    idle_total += g;
+                    s.advance(t, g);
+                }
+                0..=4 => {
+                    let auth = gen_auth(rng, holder);
+                    s.guarded(t, &auth);
+                }
+                5 | 6 => {
+                    let lu = s.now + *rng.pick(&[3u32, DAY, 40 * DAY]);
+                    let auth = gen_auth(rng, holder);
+                    s.offer(t, rng.below(N as u64) as usize, lu, &auth);
+                }
+                7 | 8 => {
+                    let right = s.last_offer.map(|(a, _)| a);
+                    let auth = gen_auth(rng, right.or(Some(1)));
+                    s.accept(t, &auth);
+                }
+                _ => {
+                    let auth = gen_auth(rng, holder);
+                    if rng.chance(30) {
+                        s.renounce(t, &auth);
+                    } else {
+                        s.guarded(t, &auth);
+                    }
+                }
+            }
+        }
     }
 }
 
@@ -531,6 +644,7 @@ fn main() {
     let len = arg_u64("--len", 40);
     let mut rng = Rng::new(seed);
     directed(&mut t);
+    long_idle(&mut t, &mut rng, if thorough { 40 } else { 6 });
     for k in 0..nseq {
         random_sequence(&mut t, &mut rng, k, seed, len);
     }
